@@ -37,7 +37,7 @@ type Array struct{ St *Store }
 // Slice is a view over a store; used for both []T and string.
 type Slice struct {
 	St  *Store // nil: the nil slice / the empty string
-	Off int
+	Off sym.Sc // 64-bit element offset into St; zero value means 0; may be symbolic (made concrete on element access)
 	Len sym.Sc // 64-bit
 	Cap sym.Sc // 64-bit (== Len for strings)
 }
